@@ -18,6 +18,7 @@ class SourceSeg(Segment):
     files = [SRC, 'streamz/core.py']
     cls = 'Source'
     harness = 'source_harness'
+    inline = ('Source.start', 'Source.stop')
     assumptions = ('loop.add_callback(f) runs f exactly once in a later segment (trusted)',)
 
     def make_self(self, I):
@@ -70,8 +71,27 @@ class SourceStart(SourceSeg):
     method = 'start'
     props = ['C18']
 
+    def make_self(self, I):
+        f = SourceSeg.make_self(self, I)
+        if self.cls == 'from_iterable':
+            f['_iterable'] = VSeq(z3.Const('iterable0', sym.SeqElemS), K_ELEM)
+        return f
+
+    def unchanged_clause(self):
+        def fn(self_, I, o, fr):
+            pre = self.pre_state.heap[self.pre_args['self'].loc]
+            post = o.state.heap[self.pre_args['self'].loc]
+            from .core_common import values_equal_across
+            if set(pre.fields) != set(post.fields):
+                return z3.BoolVal(False)        # an attribute appeared or disappeared
+            fs = [values_equal_across(I, self.pre_state, pre.fields[f], o.state, post.fields[f]) for f in pre.fields]
+            return z3.Implies(z3.Not(I.truth(pre.fields['stopped'])), z3.And(fs) if fs else z3.BoolVal(True))
+        return fn
+
     def clauses(self):
         return [
+            Clause('C18.start_of_a_started_source_changes_nothing', ['C18'], when='return', fn=self.unchanged_clause(),
+                   kind='protocol', note='P3: no attribute of a started source is touched by another start()'),
             Clause('C18.at_most_one_polling_loop', ['C18'], when='return', text='live + schedules_run() <= 1',
                    kind='protocol', replay={'scenario': 'source_restart_two_loops'},
                    note='P1: starting must not create a second polling loop while an earlier one is still alive'),
@@ -85,6 +105,12 @@ class SourceStart(SourceSeg):
 class SourceStop(SourceSeg):
     method = 'stop'
     props = ['C18']
+
+    def make_self(self, I):
+        f = SourceSeg.make_self(self, I)
+        if self.cls == 'from_iterable':
+            f['_iterable'] = VSeq(z3.Const('iterable0', sym.SeqElemS), K_ELEM)
+        return f
 
     def clauses(self):
         return [Clause('C18.stop_only_sets_the_flag', ['C18'], when='return',
@@ -187,5 +213,16 @@ class FromPeriodicRunSleep(FromPeriodicRun):
                        text='emitted == [] and len(sleeps) == 1 and sleeps[0] == self._poll')]
 
 
-ALL = [SourceStart, SourceStop, SourceRunHead, SourceRunAfterCycle, FromIterableRun, FromIterableRunResumed,
+def _per_source(base, cls):
+    """the lifecycle contract re-proved for the start/stop a concrete source class resolves to (an override is verified,
+    not assumed)"""
+    return type('%s_%s' % (base.__name__, cls), (base,), {'cls': cls, 'name': '%s.%s@0' % (cls, base.method)})
+
+
+SUBCLASS_LIFECYCLE = [_per_source(b, c) for c in ('from_iterable', 'from_periodic', 'from_textfile', 'filenames')
+                      for b in (SourceStart, SourceStop)]
+for _c in SUBCLASS_LIFECYCLE:
+    globals()[_c.__name__] = _c
+
+ALL = SUBCLASS_LIFECYCLE + [SourceStart, SourceStop, SourceRunHead, SourceRunAfterCycle, FromIterableRun, FromIterableRunResumed,
        FromPeriodicRun, FromPeriodicRunSleep]
